@@ -455,6 +455,51 @@ func foreignTables(repo string) (string, error) {
 		}
 	}
 
+	// ---- the importer's own keyword lists (isSyslKeyword)
+	strList := func(name string) []string {
+		for _, d := range ut.file.Decls {
+			gd, ok := d.(*ast.GenDecl)
+			if !ok || gd.Tok != token.VAR {
+				continue
+			}
+			for _, sp := range gd.Specs {
+				vs := sp.(*ast.ValueSpec)
+				for i, n := range vs.Names {
+					if n.Name != name || i >= len(vs.Values) {
+						continue
+					}
+					cl, ok := vs.Values[i].(*ast.CompositeLit)
+					if !ok {
+						unk("%s is not a composite literal", name)
+						return nil
+					}
+					var out []string
+					for _, el := range cl.Elts {
+						bl, ok := el.(*ast.BasicLit)
+						if !ok || bl.Kind != token.STRING {
+							unk("%s element %s", name, ftSrc(ut.fset, el))
+							continue
+						}
+						v, _ := strconv.Unquote(bl.Value)
+						out = append(out, v)
+					}
+					sort.Strings(out)
+					return out
+				}
+			}
+		}
+		unk("%s not found", name)
+		return nil
+	}
+	impKw := strList("syslKeywords")
+	impVerbs := strList("httpVerbs")
+	var isKwShape []string
+	if fd := ftFunc(ut, "", "isSyslKeyword"); fd == nil {
+		unk("isSyslKeyword not found")
+	} else {
+		isKwShape = ftStmts(ut, fd.Body.List)
+	}
+
 	// ---- quote
 	var quoteShape []string
 	if fd := ftFunc(ut, "", "quote"); fd == nil {
@@ -723,6 +768,9 @@ func foreignTables(repo string) (string, error) {
 	fmt.Fprintf(&o, "Definition lexer_dq_rule : string := %s.\n", ftCoq(dqRule))
 	fmt.Fprintf(&o, "Definition lexer_keywords_ci : list string :=\n  %s.\n", ftList(kwCI))
 	fmt.Fprintf(&o, "Definition lexer_keywords_cs : list string :=\n  %s.\n", ftList(kwCS))
+	fmt.Fprintf(&o, "Definition importer_keywords_ci : list string :=\n  %s.\n", ftList(impKw))
+	fmt.Fprintf(&o, "Definition importer_keywords_cs : list string :=\n  %s.\n", ftList(impVerbs))
+	fmt.Fprintf(&o, "Definition is_keyword_shape : list string :=\n  %s.\n", ftList(isKwShape))
 	fmt.Fprintf(&o, "Definition unknown : list string :=\n  %s.\n", ftList(unknown))
 	return o.String(), nil
 }
